@@ -1,2 +1,32 @@
-(* C10 -- statement file; proofs in Sess/ *)
-From SV Require Import Sess.Model.
+(* C10 -- rejected calls have no wire effect; servers answer only open requests. *)
+From Coq Require Import ZArith List.
+From Coq.Strings Require Import Byte.
+From SV Require Import Base.Bytes Base.Py Msg.Types Msg.Encode Sess.Model Sess.Drain Sess.Wire.
+Import ListNotations.
+
+Theorem C10_refused_call_leaves_stream :
+  forall d s c s', step d s c = (s', OLdapErr) -> s_out s' = s_out s.
+Proof. exact refused_call_leaves_stream. Qed.
+
+(* a message-sending call either succeeds or fails with the library's own error type *)
+Theorem C10_only_library_error :
+  forall d s c s' o, call_fits (s_role s) c = true -> step d s c = (s', o) ->
+  match o with ORetId _ | ORetNone | OLdapErr => True | _ => False end.
+Proof. exact send_call_outcomes. Qed.
+
+Theorem C10_server_answers_only_outstanding :
+  forall d s c s' i id, s_role s = Server -> response_id c = Some id -> step d s c = (s', ORetId i) ->
+  i = id /\ In id (s_outstanding s) /\
+  (is_final_response c = true -> ~ In id (s_outstanding s')) /\
+  (is_final_response c = false -> In id (s_outstanding s')).
+Proof. exact server_answers_only_outstanding. Qed.
+
+Theorem C10_second_response_refused :
+  forall d s c id s' o, s_role s = Server -> response_id c = Some id -> ~ In id (s_outstanding s) ->
+  step d s c = (s', o) -> o = OLdapErr /\ s_out s' = s_out s.
+Proof. exact response_to_non_outstanding_refused. Qed.
+
+Print Assumptions C10_refused_call_leaves_stream.
+Print Assumptions C10_only_library_error.
+Print Assumptions C10_server_answers_only_outstanding.
+Print Assumptions C10_second_response_refused.
